@@ -450,11 +450,14 @@ theorem sorted_singleton_of_mem (l : List Int) (i : Int) (hs : Route.Sorted l) (
     omega
 
 /-- a point query on a sharding value placed in table `i` is routed to exactly
-    table `i` (`Route.routeStmt` is the model `route_sound` of C01 is about) -/
+    table `i` (`Route.routeStmt` is the model `route_sound` of C01 is about).
+    `l.wide = false`: the planner asks the rule to place the literal of the
+    query (since the repairs of C01 `getShardingCompareValue` routes a literal
+    it does not place to every sub table, which contains table `i` as well). -/
 theorem point_query_route (rr : Route.Rule) (l : Route.Lit) (i : Int) (hs : Route.Sorted rr.idxs)
-    (hin : i ∈ rr.idxs) (hg : rr.isGlobal = false) (hp : l.place = some i) :
+    (hin : i ∈ rr.idxs) (hg : rr.isGlobal = false) (hp : l.place = some i) (hw : l.wide = false) :
     Route.routeStmt rr (some (.cmp true false .eq l)) = some [i] := by
-  simp only [Route.routeStmt, Route.route, hg, Bool.false_eq_true, ↓reduceIte, Route.findTableIndexes,
+  simp only [Route.routeStmt, Route.route, hg, hw, Bool.false_eq_true, ↓reduceIte, Route.findTableIndexes,
     Bool.not_true, hp, Option.map_some]
   congr 1
   apply sorted_singleton_of_mem
@@ -470,14 +473,17 @@ theorem point_query_route (rr : Route.Rule) (l : Route.Lit) (i : Int) (hs : Rout
     table whose layout maps only listed tables to slices: every row of every
     produced statement has a sharding literal placed in some table `i`, the
     statement carrying the row is the statement of table `i`, and a point query
-    `shardcol = literal` with the same placement is routed to exactly `[i]`. -/
+    `shardcol = literal` with the same placement, written with a literal the
+    planner asks the rule to place (`wide = false`: an integer or a string the
+    rule reads, as the inserted literal is), is routed to exactly `[i]`. -/
 theorem insert_findable (t : TableRule) (seq : Option Seq) (s : Stmt) (out : List (Target Out))
     (rr : Route.Rule) (hk : t.layout.kind ≠ .global) (h : handleInsertStmt head t seq s = .ok out)
     (hidx : rr.idxs = t.layout.idxs) (hs : Route.Sorted rr.idxs) (hg : rr.isGlobal = false)
     (hlay : ∀ i, mapGet t.layout.t2s i ≠ none → i ∈ t.layout.idxs) :
     ∃ s' sci, handleInsertGlobalSequenceValue seq s = .ok s' ∧ lastIndex t.shardCol s'.cols = some sci ∧
       ∀ o ∈ out, ∀ row ∈ o.sql.rows, ∃ i, PlacedAt t.ruleType sci row i ∧ Stored t s' i o.sql.rows o ∧
-        ∀ l : Route.Lit, l.place = some i → Route.routeStmt rr (some (.cmp true false .eq l)) = some [i] := by
+        ∀ l : Route.Lit, l.place = some i → l.wide = false →
+          Route.routeStmt rr (some (.cmp true false .eq l)) = some [i] := by
   cases hm : (match handleInsertGlobalSequenceValue seq s with | .ok s' => s'.setMode | _ => false) with
   | false =>
     obtain ⟨s', sci, hseq, hsci, hv⟩ := insert_partition t seq s out hk h
@@ -488,8 +494,8 @@ theorem insert_findable (t : TableRule) (seq : Option Seq) (s : Stmt) (out : Lis
     obtain ⟨g, hg', hst⟩ := hf.exists_left o ho
     have hr : row ∈ g.2 := by rw [← hst.rows]; exact hrow
     refine ⟨g.1, (hpl g hg').2 row hr, by rw [hst.rows]; exact hst, ?_⟩
-    intro l hl
-    exact point_query_route rr l g.1 hs (by rw [hidx]; exact hlay _ hst.known) hg hl
+    intro l hl hw
+    exact point_query_route rr l g.1 hs (by rw [hidx]; exact hlay _ hst.known) hg hl hw
   | true =>
     obtain ⟨s', sci, hseq, hsci, hv⟩ := insert_set_once t seq s out hk h
     refine ⟨s', sci, hseq, hsci, ?_⟩
@@ -503,8 +509,8 @@ theorem insert_findable (t : TableRule) (seq : Option Seq) (s : Stmt) (out : Lis
     simp only [List.mem_singleton] at hr
     subst hr
     refine ⟨i, hp, by rw [hst.rows]; exact hst, ?_⟩
-    intro l hl
-    exact point_query_route rr l i hs (by rw [hidx]; exact hi) hg hl
+    intro l hl hw
+    exact point_query_route rr l i hs (by rw [hidx]; exact hi) hg hl hw
 
 /-! ### The global sequence only fills the sequence cells -/
 
